@@ -1,5 +1,5 @@
 (* C11 — mutate re-accounts the changed value or hands it back. *)
-Require Import LruV.A.SpecA.
+Require Import LruV.A.SpecA LruV.A.InvA LruV.B.StepB LruV.B.RefineB LruV.B.ReachB.
 
 (* absent key: Ok(None), nothing changes (that the closure is not called is the harness-side
    observation `cl=0`, and the Layer B statement that no closure callback is asked) *)
@@ -58,6 +58,35 @@ Example C11_example :
      /\ map (fun e => kid (ek e)) (e_evicted evs) = [2] /\ map (fun e => (kid (ek e), es e)) (ents s') = [(3, 80); (1, 92)] /\ cur s' = 172.
 Proof. cbv zeta. eexists _, _. split; [vm_compute; reflexivity|]. repeat split; reflexivity. Qed.
 
+(* at pointer level: mutate as the code runs it on the heap of nodes (lookup by scanning the listed buckets, the recorded
+   size rewritten in the node, the node moved to the head, victims read from seal.prev; on "too large" the node unlinked
+   and its pair handed back) from any reachable state: the three outcomes, each with the abstraction of the new structure,
+   which is coherent *)
+Theorem C11_pointer_level : forall E VS, 0 < E -> VS <= E -> forall b q nt nh oB b' out evs,
+  ReachB E VS b -> wf_op E (absB b) (Mutate q nt nh) -> stepB E VS b (Mutate q nt nh) oB = Some (b', out, evs) ->
+  let l := ents (absB b) in
+  RIb b' /\
+  (find_id q l = None -> out = OMutNone /\ absB b' = absB b /\ e_dropped evs = [] /\ e_evicted evs = []) /\
+  (forall e, find_id q l = Some e -> bmax b < kheap (ek e) + nh + E ->
+     out = OMutTooLarge (ek e) (mutated e nt nh) (kheap (ek e) + vheap (ev e) + E) (kheap (ek e) + nh + E) (bmax b) /\
+     ents (absB b') = remove_id q l /\ bcur b' = bcur b - es e /\ bmax b' = bmax b /\ e_dropped evs = [] /\ e_evicted evs = []) /\
+  (forall e, find_id q l = Some e -> kheap (ek e) + nh + E <= bmax b ->
+     let nes := kheap (ek e) + nh + E in
+     out = OMutOk /\
+     exists rest, minimal_prefix (remove_id q l) (e_evicted evs) rest (bmax b - nes) /\
+                  ents (absB b') = rest ++ [mk_entry (ek e) (mutated e nt nh) nes] /\ bcur b' = sum_es rest + nes /\
+                  e_dropped evs = all_toks (e_evicted evs)).
+Proof.
+  intros E VS HE HV b q nt nh oB b' out evs HR Hwf Hstep. cbv zeta.
+  destruct (reachB_sound E VS HE HV b HR) as [_ HRa]. pose proof (reach_inv E VS HE HV _ HRa) as HI.
+  destruct (reachB_step E VS HE HV b _ oB b' out evs HR Hstep) as (HA & HRI & _).
+  split; [exact HRI|]. split; [|split].
+  - intros Hf. exact (C11_absent E VS HE HV _ q nt nh _ _ out evs HI Hf HA).
+  - intros e Hf Hbig. exact (C11_too_large E VS HE HV _ q nt nh _ _ out evs e HI Hwf Hf Hbig HA).
+  - intros e Hf Hfit. exact (C11_ok E VS HE HV _ q nt nh _ _ out evs e HI Hwf Hf Hfit HA).
+Qed.
+
 Print Assumptions C11_absent.
 Print Assumptions C11_too_large.
 Print Assumptions C11_ok.
+Print Assumptions C11_pointer_level.
